@@ -24,6 +24,8 @@ type Ctx struct {
 	fns  map[*ssa.Function]*ir.Func
 	cg   *CallGraph
 	lets map[string]string
+	// delegs: subject functions that delegate to a new function (see delegate)
+	delegs map[*ssa.Function]*ir.Func
 }
 
 // Let defines a textual macro usable as {NAME} in patterns and callee names.
@@ -55,7 +57,58 @@ func (c *Ctx) Fn(spec string) *ir.Func {
 		c.add("anchor", spec, "resolve", "function exists in /repo", report.Undecided, "anchor does not resolve: "+spec, "")
 		return nil
 	}
-	return c.Wrap(fn)
+	if d := c.delegate(fn); d != nil {
+		ir.RegisterHelpers(d)
+		return d
+	}
+	f := c.Wrap(fn)
+	ir.RegisterHelpers(f)
+	return f
+}
+
+// delegate: when the subject function has become a thin wrapper — its body is a single call to a function that is
+// not in the function inventory (the body was moved into a new helper or a closure became a named method), with the
+// wrapper's own parameters / captured variables as arguments — the rules are evaluated on that function, whose
+// parameters are printed as the wrapper's arguments.
+func (c *Ctx) delegate(fn *ssa.Function) *ir.Func {
+	if f, ok := c.delegs[fn]; ok {
+		return f
+	}
+	if c.delegs == nil {
+		c.delegs = map[*ssa.Function]*ir.Func{}
+	}
+	c.delegs[fn] = nil
+	var call *ssa.Call
+	for _, b := range fn.Blocks {
+		for _, ins := range b.Instrs {
+			switch x := ins.(type) {
+			case *ssa.Call:
+				if call != nil {
+					return nil
+				}
+				call = x
+			case *ssa.UnOp, *ssa.Return, *ssa.Extract, *ssa.DebugRef, *ssa.FieldAddr, *ssa.Field, *ssa.Alloc, *ssa.Store, *ssa.MakeInterface, *ssa.ChangeType:
+			default:
+				return nil
+			}
+		}
+	}
+	if call == nil || len(fn.Blocks) != 1 {
+		return nil
+	}
+	g := call.Common().StaticCallee()
+	if g == nil || !ir.IsNewFunc(g) || len(call.Common().Args) != len(g.Params) {
+		return nil
+	}
+	outer := c.Wrap(fn)
+	df := ir.NewFunc(g)
+	df.Org.ParamSubst = map[*ssa.Parameter]*ir.Term{}
+	for i, p := range g.Params {
+		df.Org.ParamSubst[p] = outer.Term(call.Common().Args[i])
+	}
+	c.R.FuncsTouched[ir.FuncName(g)] = true
+	c.delegs[fn] = df
+	return df
 }
 
 // FnOpt resolves a function spec without complaint.
@@ -152,7 +205,12 @@ func (c *Ctx) sites(f *ir.Func, callee string) []ssa.CallInstruction {
 				}
 			}
 		}
-		for _, call := range f.CallsTo(name) {
+		var cands []ssa.CallInstruction
+		cands = append(cands, f.CallsTo(name)...)
+		for _, h := range ir.HelpersOf(f) {
+			cands = append(cands, h.HF.CallsTo(name)...)
+		}
+		for _, call := range cands {
 			ok := true
 			for _, sel := range sels {
 				k := strings.Index(sel, "=")
@@ -337,7 +395,17 @@ func (c *Ctx) HasCall(fnSpec, callee string, argPats []string, onSuccess bool, d
 func (c *Ctx) MustPassAny(f *ir.Func, calls []ssa.CallInstruction) bool {
 	blocks := map[*ssa.BasicBlock]bool{}
 	for _, call := range calls {
-		blocks[call.Block()] = true
+		b := call.Block()
+		if b.Parent() != f.Fn {
+			// a call inside a registered helper happens where the helper is called, provided the helper cannot
+			// succeed without it
+			h := ir.HelperOf(f, b.Parent())
+			if h == nil || !h.HF.MustPassOnSuccess(b) {
+				continue
+			}
+			b = f.OuterBlock(b)
+		}
+		blocks[b] = true
 	}
 	entry := f.Fn.Blocks[0]
 	if blocks[entry] {
@@ -421,7 +489,7 @@ func (c *Ctx) Returns(fnSpec string, idx int, pattern, desc, role string) {
 	n := 0
 	var found, bad []string
 	var badPos string
-	for _, b := range f.Fn.Blocks {
+	for _, b := range retBlocks(f) {
 		ret, ok := b.Instrs[len(b.Instrs)-1].(*ssa.Return)
 		if !ok {
 			continue
@@ -583,6 +651,26 @@ func (c *Ctx) FollowedBy(f *ir.Func, from ssa.Instruction, calls []ssa.CallInstr
 }
 
 func (c *Ctx) followedBy(f *ir.Func, from ssa.Instruction, calls []ssa.CallInstruction) bool {
+	if from.Parent() != f.Fn || anyOutside(f, calls) {
+		// positions inside registered helpers are taken at the call that reaches them
+		from = f.OuterInstr(from)
+		var mapped []ssa.CallInstruction
+		for _, cl := range calls {
+			if cl.Parent() == f.Fn {
+				mapped = append(mapped, cl)
+			} else if h := ir.HelperOf(f, cl.Parent()); h != nil && h.HF.MustPassOnSuccess(cl.Block()) {
+				if oc, ok := f.OuterInstr(cl).(ssa.CallInstruction); ok {
+					mapped = append(mapped, oc)
+				}
+			}
+		}
+		calls = mapped
+		for _, cl := range calls {
+			if cl == from {
+				return true // both inside the same helper call: decided within the helper
+			}
+		}
+	}
 	blocks := map[*ssa.BasicBlock]bool{}
 	for _, call := range calls {
 		if call.Block() == from.Block() {
@@ -654,8 +742,20 @@ func (c *Ctx) NeverAfter(fnSpec, first, second, desc string) {
 	c.add("O", fnSpec, r, desc, report.OK, fmt.Sprintf("%d×%d site pairs", len(fs), len(ss)), c.posOf(fs[0]))
 }
 
+func anyOutside(f *ir.Func, calls []ssa.CallInstruction) bool {
+	for _, cl := range calls {
+		if cl.Parent() != f.Fn {
+			return true
+		}
+	}
+	return false
+}
+
 // instrReaches: can b execute after a?
 func instrReaches(a, b ssa.Instruction) bool {
+	if a.Parent() != b.Parent() {
+		return crossReaches(a, b)
+	}
 	if a.Block() == b.Block() {
 		ia, ib := -1, -1
 		for i, ins := range a.Block().Instrs {
@@ -785,13 +885,17 @@ func (c *Ctx) LoopOnlyFailExits(fnSpec, desc string) {
 		return
 	}
 	n := 0
-	for _, h := range f.Fn.Blocks {
+	allBlocks := append([]*ssa.BasicBlock{}, f.Fn.Blocks...)
+	for _, hc := range ir.HelpersOf(f) {
+		allBlocks = append(allBlocks, hc.HF.Fn.Blocks...)
+	}
+	for _, h := range allBlocks {
 		body, _ := NaturalLoop(h)
 		if body == nil {
 			continue
 		}
 		n++
-		for _, b := range f.Fn.Blocks {
+		for _, b := range h.Parent().Blocks {
 			if !body[b] || b == h {
 				continue
 			}
@@ -1162,7 +1266,7 @@ func (c *Ctx) ForEach(fnSpec, callee, collPat, desc string, conditional bool) {
 		var body map[*ssa.BasicBlock]bool
 		var latch []*ssa.BasicBlock
 		var head *ssa.BasicBlock
-		for _, h := range f.Fn.Blocks {
+		for _, h := range b.Parent().Blocks {
 			bd, l := NaturalLoop(h)
 			if bd == nil || !bd[b] {
 				continue
@@ -1196,7 +1300,7 @@ func (c *Ctx) ForEach(fnSpec, callee, collPat, desc string, conditional bool) {
 			continue
 		}
 		early := false
-		for _, x := range f.Fn.Blocks {
+		for _, x := range head.Parent().Blocks {
 			if !body[x] || x == head {
 				continue
 			}
@@ -1742,4 +1846,110 @@ func fieldNameOf(t types.Type, i int) string {
 		return st.Field(i).Name()
 	}
 	return fmt.Sprint(i)
+}
+
+// crossReaches: reachability between instructions of a subject function and of helpers it calls: the helper's
+// instruction is placed at the call that reaches it.
+func crossReaches(a, b ssa.Instruction) bool {
+	for i := 0; i < 3 && a.Parent() != b.Parent(); i++ {
+		if ha := ir.HelperByFn(a.Parent()); ha != nil && encloses(ha.Outer.Parent(), b.Parent()) {
+			a = ha.Outer
+			continue
+		}
+		if hb := ir.HelperByFn(b.Parent()); hb != nil {
+			if hb.Outer == a {
+				return true
+			}
+			b = hb.Outer
+			continue
+		}
+		return false
+	}
+	if a.Parent() != b.Parent() {
+		return false
+	}
+	if a == b {
+		return false
+	}
+	return instrReaches(a, b)
+}
+
+func encloses(outer, fn *ssa.Function) bool {
+	for i := 0; i < 4 && fn != nil; i++ {
+		if fn == outer {
+			return true
+		}
+		h := ir.HelperByFn(fn)
+		if h == nil {
+			return false
+		}
+		fn = h.Outer.Parent()
+	}
+	return false
+}
+
+// retBlocks lists the blocks ending in a return statement of f, where a `return H(...)` that forwards all results of a
+// registered helper H is replaced by H's own return blocks (facts about them combine H's facts with those at the call).
+func retBlocks(f *ir.Func) []*ssa.BasicBlock {
+	var out []*ssa.BasicBlock
+	var visit func(fn *ssa.Function, depth int)
+	visit = func(fn *ssa.Function, depth int) {
+		for _, b := range fn.Blocks {
+			ret, ok := b.Instrs[len(b.Instrs)-1].(*ssa.Return)
+			if !ok {
+				continue
+			}
+			if h := forwardedHelper(f, ret); h != nil && depth < 3 {
+				visit(h.HF.Fn, depth+1)
+				continue
+			}
+			out = append(out, b)
+		}
+	}
+	visit(f.Fn, 0)
+	return out
+}
+
+func forwardedHelper(f *ir.Func, ret *ssa.Return) *ir.HelperCtx {
+	if len(ret.Results) == 0 {
+		return nil
+	}
+	var call *ssa.Call
+	for i, r := range ret.Results {
+		var c *ssa.Call
+		switch x := r.(type) {
+		case *ssa.Call:
+			if len(ret.Results) != 1 {
+				return nil
+			}
+			c = x
+		case *ssa.Extract:
+			cc, ok := x.Tuple.(*ssa.Call)
+			if !ok || x.Index != i {
+				return nil
+			}
+			c = cc
+		default:
+			return nil
+		}
+		if call != nil && c != call {
+			return nil
+		}
+		call = c
+	}
+	if call == nil || call.Block() != ret.Block() {
+		return nil
+	}
+	g := call.Common().StaticCallee()
+	if g == nil {
+		return nil
+	}
+	h := ir.HelperOf(f, g)
+	if h == nil || h.Outer != ssa.CallInstruction(call) {
+		return nil
+	}
+	if g.Signature.Results().Len() != len(ret.Results) {
+		return nil
+	}
+	return h
 }
